@@ -84,6 +84,7 @@ fn main() {
 fn dispatch(op: &str, args: &[&str]) -> String {
     match op {
         "media" => op_media(args),
+        "timing" => op_timing(args),
         "master" => op_master(args),
         "media_excess" => op_media_excess(args),
         "media_fromstr" => op_media_fromstr(args),
@@ -268,6 +269,41 @@ fn op_media(args: &[&str]) -> String {
         return BADINPUT.to_string();
     };
     roundtrip::<Media>(&text, None)
+}
+
+/// `timing KIND TEXT` -> `ok (timing (parse_us N) (tostring_us N) (reparse_us N) (len N))` | `err` | `panic`:
+/// wall time of the three steps alone (no dump), for the time-scaling measurement of C05.
+fn op_timing(args: &[&str]) -> String {
+    let (Some(kind), Some(text)) = (args.first().copied(), text_arg(args, 1)) else {
+        return BADINPUT.to_string();
+    };
+    // Ok((parse, to_string, re-parse, text length)) | Err(parse time of a rejected input)
+    let run = || -> Result<(u128, u128, u128, usize), u128> {
+        use std::convert::TryFrom;
+        let t0 = std::time::Instant::now();
+        if kind == "master" {
+            let p = hls_m3u8::MasterPlaylist::try_from(text.as_str()).map_err(|_| t0.elapsed().as_micros())?;
+            let t1 = t0.elapsed().as_micros();
+            let s = p.to_string();
+            let t2 = t0.elapsed().as_micros();
+            let _ = hls_m3u8::MasterPlaylist::try_from(s.as_str()).is_ok();
+            let t3 = t0.elapsed().as_micros();
+            Ok((t1, t2 - t1, t3 - t2, s.len()))
+        } else {
+            let p = MediaPlaylist::try_from(text.as_str()).map_err(|_| t0.elapsed().as_micros())?;
+            let t1 = t0.elapsed().as_micros();
+            let s = p.to_string();
+            let t2 = t0.elapsed().as_micros();
+            let _ = MediaPlaylist::try_from(s.as_str()).is_ok();
+            let t3 = t0.elapsed().as_micros();
+            Ok((t1, t2 - t1, t3 - t2, s.len()))
+        }
+    };
+    match guard(run) {
+        None => PANIC.to_string(),
+        Some(Err(us)) => format!("err (timing (parse_us {}))", us),
+        Some(Ok((a, b, c, n))) => format!("ok (timing (parse_us {}) (tostring_us {}) (reparse_us {}) (len {}))", a, b, c, n),
+    }
 }
 
 fn op_master(args: &[&str]) -> String {
